@@ -573,10 +573,12 @@ pub fn flatten(
 ) {
     let sqrt_tol = tolerance.sqrt();
     let mut last_pt = None;
+    let mut start_pt = None;
     let mut quad_buf = Vec::new();
     for el in path {
         match el {
             PathEl::MoveTo(p) => {
+                start_pt = Some(p);
                 last_pt = Some(p);
                 callback(PathEl::MoveTo(p));
             }
@@ -646,7 +648,7 @@ pub fn flatten(
                 last_pt = Some(p3);
             }
             PathEl::ClosePath => {
-                last_pt = None;
+                last_pt = start_pt;
                 callback(PathEl::ClosePath);
             }
         }
